@@ -301,6 +301,7 @@ def _transforms(ctx, ft, pr, config):
         meta.append((c, f, len(lines)))
         lines += ls
     rep = driver_parallel(lines)
+    stream, hist_reports = [], 0
     for c, f, at in meta:
         (m, n), Q, (M, N), shift = case_args(c)
         sp, md, cz = (w2arr(rep[at + i], M, N) for i in range(3))
@@ -324,11 +325,30 @@ def _transforms(ctx, ft, pr, config):
                 if _is_known(ctx, cc):
                     continue
                 try:
-                    out = call_impl(method, c['dir'], f, Q, (M, N), shift, forms=c.get('forms'))
+                    out = call_impl(method, c['dir'], f, Q, (M, N), shift, fresh=True, forms=c.get('forms'))
                 except Exception as ex:
                     ctx.disagree('transform', cc, f'raised {type(ex).__name__}: {str(ex)[:120]}', 'model returns an array')
                     ctx.pred_fail('transform', cc, f'{method} raised {type(ex).__name__}: {str(ex)[:160]}')
                     continue
+                # the whole stream is also one long history on the SHARED executors: the same call there must return
+                # what the fresh executor returned (same arguments, same configuration)
+                op = dict(cc, op='call')
+                stream.append({'op': 'precision', 'value': c['precision']})
+                stream.append(op)
+                if hist_reports < 3:
+                    try:
+                        shared = call_impl(method, c['dir'], f, Q, (M, N), shift, forms=c.get('forms'))
+                        lowp = c['precision'] == 32 if method == 'mdft' else c['dtype'] in ('complex64', 'float32')
+                        same = shared.dtype == out.dtype and close(shared, out, 1e-5 if lowp else 1e-10)[0]
+                    except Exception:
+                        same = False
+                    if not same:
+                        hist_reports += 1
+                        ops = _culprit_history(stream, ft, config)
+                        config.precision = c['precision']
+                        if ops is not None:
+                            ctx.pred_fail('history', {'ops': ops}, run_history(ops, ft, config)[0])
+                            config.precision = c['precision']
                 ok, err = close(out, model, tol)
                 if not ok:
                     ctx.disagree('transform', cc, f'max |impl - model| = {err:.3g}', f'model {method} (tol {tol:g})')
@@ -343,6 +363,23 @@ def _transforms(ctx, ft, pr, config):
                     ctx.pred_fail('transform', cc, f'{what}: max err {errp:.3g} (tol {tol:g})')
         finally:
             config.precision = 64
+
+
+def _culprit_history(stream, ft, config):
+    """the last call of `stream` differs from a fresh executor: find a short history that reproduces it.
+    First try each earlier call alone in front of the failing one (most recent first), then the whole prefix."""
+    last_prec, last = stream[-2], stream[-1]
+    calls = [(stream[i - 1], stream[i]) for i in range(1, len(stream) - 2, 2)]
+    for prec, op in reversed(calls[-600:]):
+        if op['method'] != last['method']:
+            continue
+        ops = [prec, op, last_prec, last]
+        if run_history(ops, ft, config)[0]:
+            return ops
+    ops = list(stream[-802:])
+    if run_history(ops, ft, config)[0]:
+        return _shrink_history(ops, ft, config) if len(ops) <= 120 else ops
+    return None
 
 
 def _fft_route(ctx, ft, pr, config):
@@ -485,14 +522,33 @@ def _norm_key(method, direction, shape, Q, MN, shift, precision, dtype):
 def gen_history(r, length):
     """ops over a small pool of argument sets so that keys repeat; clear() and precision switches interleaved"""
     pool = []
-    for _ in range(int(r.integers(2, 5))):
-        shp = (int(r.integers(1, 8)), int(r.integers(1, 8)))
-        pool.append({'shape': list(shp), 'Q': [1, 2, 1.5, (1.7, 2.3)][int(r.integers(4))],
-                     'samples': [int(r.integers(1, 9)), int(r.integers(1, 9))],
-                     'shift': list(SHIFTS[int(r.integers(len(SHIFTS)))])})
-    for p in pool:
-        if isinstance(p['Q'], tuple):
-            p['Q'] = list(p['Q'])
+    shp = (int(r.integers(1, 8)), int(r.integers(1, 8)))
+    pool.append({'shape': list(shp), 'Q': [1, 2, 1.5, (1.7, 2.3)][int(r.integers(4))],
+                 'samples': [int(r.integers(1, 9)), int(r.integers(1, 9))],
+                 'shift': list(SHIFTS[int(r.integers(len(SHIFTS)))])})
+    for _ in range(int(r.integers(1, 5))):
+        if r.random() < 0.3:          # an unrelated argument set
+            shp = (int(r.integers(1, 8)), int(r.integers(1, 8)))
+            pool.append({'shape': list(shp), 'Q': [1, 2, 1.5, (1.7, 2.3)][int(r.integers(4))],
+                         'samples': [int(r.integers(1, 9)), int(r.integers(1, 9))],
+                         'shift': list(SHIFTS[int(r.integers(len(SHIFTS)))])})
+            continue
+        # a variant of an earlier set that differs along ONE axis only (the other axis shares count, Q, samples, shift)
+        base = pool[int(r.integers(len(pool)))]
+        v = {k: (list(x) if isinstance(x, (list, tuple)) else x) for k, x in base.items()}
+        ax = int(r.integers(2))
+        what = int(r.integers(4))
+        if what == 0:
+            v['shape'][ax] = int(r.integers(1, 8))
+        elif what == 1:
+            q = list(qpair(tuple(v['Q']) if isinstance(v['Q'], list) else v['Q']))
+            q[ax] = [1.0, 2.0, 1.5, 2.37, 3.0][int(r.integers(5))]
+            v['Q'] = q
+        elif what == 2:
+            v['samples'][ax] = int(r.integers(1, 9))
+        else:
+            v['shift'][ax] = [0, 1, -2.5, 0.75][int(r.integers(4))]
+        pool.append(v)
     ops = []
     for _ in range(length):
         x = r.random()
@@ -527,8 +583,8 @@ def run_history(ops, ft, config, collect=None):
             shp, Q, MN, shift = case_args(op)
             f = make_input(shp, op['dtype'], op['seed'])
             try:
-                got = call_impl(op['method'], op['dir'], f, Q, MN, shift)
-                want = call_impl(op['method'], op['dir'], f, Q, MN, shift, fresh=True)
+                got = call_impl(op['method'], op['dir'], f, Q, MN, shift, forms=op.get('forms'))
+                want = call_impl(op['method'], op['dir'], f, Q, MN, shift, fresh=True, forms=op.get('forms'))
             except Exception as ex:
                 fail = fail or f'op {idx}: raised {type(ex).__name__}: {str(ex)[:120]}'
                 sizes.append((len(ft.mdft.Ein), len(ft.czt.components)))
@@ -545,11 +601,12 @@ def run_history(ops, ft, config, collect=None):
     return fail, sizes
 
 
-def _histories(ctx, ft, pr, config):
-    nh = ctx.scale(60, 1500)
+def systematic_histories():
+    """short histories around one argument set: every ordered pair of precisions (with / without clear()), every ordered
+    pair of input dtypes, every ordered pair of directions, and every pair of calls that differ along ONE axis only
+    (count, Q, samples_out or shift of that axis), both orders, both engines"""
     hs = []
-    # systematic short ones first: every ordered pair of precisions around one repeated key, with/without clear
-    base = {'shape': [4, 3], 'Q': 1.5, 'samples': [5, 4], 'shift': [0, 0], 'dtype': 'complex128', 'seed': 7}
+    base = {'shape': [4, 3], 'Q': [1.5, 1.5], 'samples': [5, 4], 'shift': [0, 0], 'dtype': 'complex128', 'seed': 7}
     for method in ('mdft', 'czt'):
         for p1, p2 in itertools.product((32, 64), repeat=2):
             for clr in (False, True):
@@ -558,6 +615,34 @@ def _histories(ctx, ft, pr, config):
                     ops.append({'op': 'clear', 'which': method})
                 ops += [{'op': 'precision', 'value': p2}, dict(base, op='call', method=method, dir=-1)]
                 hs.append(ops)
+        for d1, d2 in itertools.permutations(('complex128', 'complex64', 'float64', 'float32'), 2):
+            hs.append([dict(base, op='call', method=method, dir=-1, dtype=d1), dict(base, op='call', method=method, dir=-1, dtype=d2)])
+        hs.append([dict(base, op='call', method=method, dir=-1), dict(base, op='call', method=method, dir=1)])
+        hs.append([dict(base, op='call', method=method, dir=1), dict(base, op='call', method=method, dir=-1)])
+        # the same values handed over in another documented form (tuple / list / ndarray: equal as cache keys)
+        for dt in ('complex64', 'complex128'):
+            for fm in ({'Q': 'array', 'samples': 'tuple', 'shift': 'tuple'}, {'Q': 'list', 'samples': 'list', 'shift': 'list'},
+                       {'Q': 'asis', 'samples': 'array', 'shift': 'array'}):
+                a = dict(base, op='call', method=method, dir=-1, dtype=dt)
+                b = dict(a, forms=fm)
+                hs.append([a, b])
+                hs.append([b, a])
+        variants = []
+        for ax in (0, 1):
+            for key, val in (('shape', 6), ('samples', 7), ('shift', 1.5), ('Q', 2.37)):
+                v = {k: (list(x) if isinstance(x, list) else x) for k, x in base.items()}
+                v[key][ax] = val
+                variants.append(v)
+        for v in variants:
+            hs.append([dict(base, op='call', method=method, dir=-1), dict(v, op='call', method=method, dir=-1)])
+            hs.append([dict(v, op='call', method=method, dir=-1), dict(base, op='call', method=method, dir=-1)])
+    return hs
+
+
+def _histories(ctx, ft, pr, config):
+    nh = ctx.scale(60, 1500)
+    hs = systematic_histories()
+    nh = max(nh, len(hs) + ctx.scale(30, 1000))
     while len(hs) < nh:
         hs.append(gen_history(ctx.rng, int(ctx.rng.integers(3, 41))))
     lines, keep = [], []
@@ -670,15 +755,11 @@ def search(ctx, hints):
             inp = json.load(open(os.path.join(cdir, fn)))
             if _violates(inp):
                 return inp
-    # 1. histories: the systematic short ones (two calls with one key around a precision switch)
-    base = {'shape': [4, 3], 'Q': 1.5, 'samples': [5, 4], 'shift': [0, 0], 'dtype': 'complex128', 'seed': 7}
-    for method in ('mdft', 'czt'):
-        for p1, p2 in itertools.product((32, 64), repeat=2):
-            ops = [{'op': 'precision', 'value': p1}, dict(base, op='call', method=method, dir=-1),
-                   {'op': 'precision', 'value': p2}, dict(base, op='call', method=method, dir=-1)]
-            fail, _ = run_history(ops, ft, config)
-            if fail:
-                return {'item': 'history', 'input': {'ops': ops}, 'detail': fail}
+    # 1. histories: the systematic short ones (pairs of calls around one argument set)
+    for ops in systematic_histories():
+        fail, _ = run_history(ops, ft, config)
+        if fail:
+            return {'item': 'history', 'input': {'ops': ops}, 'detail': fail}
     # 2. small-scope enumeration of transforms, smallest shapes first
     budget = ctx.scale(6, 7)
     for total in range(2, 2 * budget + 1):
